@@ -14,7 +14,8 @@ SI == << A(145, "indirect_register", FALSE, FALSE), A(146, "indirect_indexed_reg
 \* same-type alternatives that accept the same text: definition order decides
 SJ == << A(161, "indirect_register", FALSE, FALSE), A(162, "indirect_register", TRUE, FALSE) >>
 SK == << A(178, "numeric", FALSE, FALSE), A(177, "numeric", FALSE, FALSE), A(179, "register", FALSE, FALSE) >>
-Sets1 == {SA, SB, SC, SD, SE, SF, SG, SH, SI, SJ, SK}
+SL == << A(193, "numeric", FALSE, FALSE), A(194, "register", FALSE, FALSE), A(195, "register_pp", FALSE, FALSE), A(196, "register_at", FALSE, FALSE) >>
+Sets1 == {SA, SB, SC, SD, SE, SF, SG, SH, SI, SJ, SK, SL}
 V(spec, sets, dis) == [spec |-> spec, sets |-> sets, dis |-> dis]
 SpReg == << A(200, "register", FALSE, FALSE) >>
 SpNum == << A(201, "numeric", FALSE, FALSE) >>
@@ -22,7 +23,7 @@ SpInd == << A(202, "indirect_register", TRUE, FALSE) >>
 \* one-operand variants
 Pool1 == { V(sp, <<s>>, {}) : sp \in {<<>>, <<SpReg>>, <<SpNum>>, <<SpInd, SpReg>>}, s \in Sets1 }
          \cup { V(<<SpReg>>, <<>>, {}), V(<<SpNum, SpReg>>, <<>>, {}) }
-Texts1 == { <<t>> : t \in {"r", "r2", "[r]", "[r+n]", "[n]", "[[n]]", "r+n", "key", "num", "lab", "{n}", "hexa", "chra"} }
+Texts1 == { <<t>> : t \in {"r", "r2", "[r]", "[r+n]", "[n]", "[[n]]", "r+n", "key", "num", "lab", "{n}", "hexa", "chra", "r++", "@r"} }
 \* two-operand variants
 Sp2 == << A(210, "register", FALSE, FALSE), A(211, "numeric", FALSE, FALSE) >>
 Pool2 == { V(sp, <<s1, s2>>, d) : sp \in {<<>>, <<Sp2>>}, s1 \in {SA, SE, SC}, s2 \in {SA, SD, SH},
